@@ -75,6 +75,9 @@ func genDescAt(t *rapid.T, depth int, c *gctx, allowResult bool) *desc {
 		d.elem = genDescAt(t, depth+1, c, false)
 	case kVec:
 		d.elem = nonEmptyEnc(genDescAt(t, depth+1, c, false))
+		if d.elem.k == kU8 && !d.elem.named {
+			return &desc{k: kBytes} // []uint8 is []byte: a byte string
+		}
 	case kMap:
 		if rapid.IntRange(0, 5).Draw(t, "arrkey") == 0 {
 			d.key = &desc{k: kArray, n: rapid.IntRange(1, 3).Draw(t, "keylen"), elem: &desc{k: kU8}}
